@@ -85,7 +85,7 @@ def proj (s : St) : String :=
   let fr := if s.frames.isEmpty then "-" else ",".intercalate (s.frames.map showFrame)
   let cc := match s.closeCode with | none => "-" | some c => toString c
   let ex := match s.exc with | none => "-" | some e => showExc e
-  s!"now={s.now} c={showBool s.closed} g={showBool s.closing} cc={cc} w={showBool s.waiting} cw={showFutRef s.closeWait} ex={ex} wc={showBool s.wClosing} tc={showBool s.trClosing} tl={showBool s.lost} pw={showBool s.paused} dw={dw} fr={fr} buf={s.buf.length} eof={showBool s.eof} rw={rw} hb={showBool s.hbCb} pg={showBool s.pongCb} nr={showBool s.needReset} pt={showBool s.pingTask.isSome} rdy={s.ready.length} tm={s.timers.length} t={"|".intercalate ((s.tasks.take appTasks).map showTask)}"
+  s!"now={s.now} c={showBool s.closed} g={showBool s.closing} cc={cc} w={showBool s.waiting} cw={showFutRef s.closeWait} ex={ex} wc={showBool s.wClosing} tc={showBool s.trClosing} tl={showBool s.lost} pw={showBool s.paused} dw={dw} fr={fr} os={s.outSize} buf={s.buf.length} eof={showBool s.eof} rw={rw} hb={showBool s.hbCb} pg={showBool s.pongCb} nr={showBool s.needReset} pt={showBool s.pingTask.isSome} rdy={s.ready.length} tm={s.timers.length} t={"|".intercalate ((s.tasks.take appTasks).map showTask)}"
 
 def traceOf (s : St) (ls : List Label) : List String :=
   let (_, acc) := ls.foldl (fun (p : St × List String) l =>
